@@ -17,6 +17,9 @@ from pyvc.state import Unsupported
 from pyvc.vals import STR, TList, V, as_atom, v_bool, v_int, v_none, v_py
 
 PROPS = ('C15', 'C02', 'C04')
+# round 3 (m1): the individual -> rows map that Database.build_panel_map computes from (data, panel column): an uninterpreted
+# function, used by the assumed contract of build_panel_map and by the clause `panel_map_is_the_map_of_the_data`
+lib.PURE_LIB['panel.map_of'] = VV.ANY
 OPEN = 'c15_open'          # ghost: name atom id -> (name V, list V)
 INSTALLED = 'c15_installed'  # ghost: list of (dst V, lines list V, src V)
 
